@@ -4,7 +4,7 @@ from __future__ import annotations
 from hypothesis import strategies as st
 
 from .. import gen, sgr
-from ..cells import build_any, cells_of_desc, show
+from ..cells import apply_layer, build_any, cells_of_desc, show
 from ..common import Res, call, exc_str, hyp_campaign
 
 PROP = "C01"
@@ -12,7 +12,7 @@ RULE = (
     "(a) complete enumeration of the 9x9x3^6=59049 attribute dicts (style absent/True/False) on a run placed "
     "between neighbour runs from a fixed spread of 24 attribute sets, texts from ascii/control/wide/combining/empty; "
     "(b) Hypothesis FmtStr descriptions (0-6 runs, ESC-free alphabet incl. controls, wide, combining, astral) built "
-    "through Chunk lists, fmtstr(**kw), fmtstr(*names), nested fmtfuncs and str+FmtStr mixing. Oracle: independent "
+    "through Chunk lists, fmtstr(**kw), fmtstr(*names), nested fmtfuncs, one fmtfuncs call with extra names and keywords, str+FmtStr mixing, and formatting layered over an existing multi-run value. Oracle: independent "
     "SGR interpreter (cells equal, final graphic state default, nothing but SGR). Non-trivial: >=2 non-empty runs "
     "with different formatting, or a run with >=1 style and a colour."
     ' Values are also built by derivation from observed parents (attribute removal, switching a style off, slicing, concatenation, copy, repetition after str/len/width/hash/repr/divides/splice/... filled every cache) and in large sizes (65-130 runs, texts of hundreds of characters).'
@@ -22,7 +22,7 @@ ASSUMPTIONS = [
     "formatting equality is cell equality: bold=False and absent bold are the same formatting",
 ]
 SHARDS = {"quick": 4, "thorough": 16}
-MODES = ["chunks", "fmtstr", "names", "funcs", "plainmix"]
+MODES = ["chunks", "fmtstr", "names", "funcs", "plainmix", "funcs_extra"]
 
 
 def run_case(case):
@@ -49,6 +49,15 @@ def run_case(case):
     if e is not None:
         res.viol("build_raised", error=exc_str(e), mode=mode)
         return res
+    if case.get("outer") is not None:
+        # formatting applied on top of the whole (multi-run) value: every run keeps its own and gains the layer's
+        outer = {k: v for k, v in case["outer"].items() if v}
+        res.label("layer_over_existing_runs")
+        f, e = call(apply_layer, f, outer, case.get("how", 0))
+        if e is not None:
+            res.viol("build_raised", error=exc_str(e), mode="layer")
+            return res
+        expected = cells_of_desc([[t, {**a, **outer}] for t, a in desc])
     s, e = call(str, f)
     if e is not None:
         res.viol("str_raised", error=exc_str(e))
@@ -66,9 +75,9 @@ def run_case(case):
 
 
 def strategy():
-    return st.fixed_dictionaries(
-        {"desc": gen.desc_sized(alphabet=gen.ALL_TEXT, max_runs=6, max_len=4), "build": st.sampled_from(MODES + MODES + gen.DERIVED_BUILDS), "obs": gen.OBS}
-    )
+    base = {"desc": gen.desc_sized(alphabet=gen.ALL_TEXT, max_runs=6, max_len=4), "build": st.sampled_from(MODES + MODES + gen.DERIVED_BUILDS), "obs": gen.OBS}
+    layered = dict(base, outer=gen.atts(allow_false=False, bias_empty=False), how=st.integers(0, 2))
+    return st.one_of(st.fixed_dictionaries(base), st.fixed_dictionaries(base), st.fixed_dictionaries(layered))
 
 
 TEXTS = ["a", "xy", "\n", "a\tb", "Ｅ", "é", ""]
@@ -88,7 +97,7 @@ def campaign(col, tier, seed, shard, nshards):
             continue
         for ci, (l, r) in enumerate(ctxs):
             t = TEXTS[(idx + ci) % len(TEXTS)]
-            case = {"desc": [["L", l], [t, a], ["R", r]], "build": MODES[(idx + ci) % 4]}
+            case = {"desc": [["L", l], [t, a], ["R", r]], "build": (MODES[:4] + ["funcs_extra"])[(idx + ci) % 5]}
             res = run_case(case)
             unknown = col.record(case, res, distinct=True, sample=(idx % 9973 == 1))
             if unknown:
